@@ -405,7 +405,7 @@ def run(ctx):
     ctx.cov["translated_spans"] = {k: v for k, v in spans.items() if k.startswith(("spdc::efficiencies", "jsa::joint_spectrum", "phasematch::normalization"))}
     for m in msgs:
         ctx.proof_failures.append(("Gen/Efficiencies.v", "translator", m))
-    proved = (not msgs) and prove(ctx, "C08", extra_targets=["Proofs/C08_tac.vo"])
+    proved = (not msgs) and prove(ctx, "C08", extra_targets=["Proofs/C08_tac.vo"] + ([] if ctx.tier == "quick" else ["Proofs/PMCaseTac.vo"]))
     if proved:   # the refuted lemmas live outside the property's obligations: a failure here is only noted
         okf, _, _ = coq_build(ctx, ["Findings/C08_singles_branch.vo", "Findings/C08_symmetric_overflow.vo"])
         if not okf:
